@@ -798,8 +798,15 @@ theorem ex_enumItem : enumItem exCtx exEpisode =
   have h1 : keywordReplace "NEWHOPE" = "NEWHOPE" := kw_not (by decide +kernel)
   have h2 : keywordReplace "EMPIRE" = "EMPIRE" := kw_not (by decide +kernel)
   have h3 : keywordReplace "type" = "type_" := kw_is (by decide +kernel)
-  simp only [enumItem, exCtx, exEpisode, Normalization.enumName, Normalization.enumVariant, Normalization.camelCase,
-    List.map_cons, List.map_nil, h1, h2, h3]
+  have i1 : enumVariantIdent .none exCtx.cs "NEWHOPE" = "NEWHOPE" := by
+    simp only [enumVariantIdent, Normalization.enumVariant, Normalization.camelCase, h1]; decide
+  have i2 : enumVariantIdent .none exCtx.cs "EMPIRE" = "EMPIRE" := by
+    simp only [enumVariantIdent, Normalization.enumVariant, Normalization.camelCase, h2]; decide
+  have i3 : enumVariantIdent .none exCtx.cs "type" = "type_" := by
+    simp only [enumVariantIdent, Normalization.enumVariant, Normalization.camelCase, h3]; decide
+  simp only [enumItem, exCtx, exEpisode, Normalization.enumName, Normalization.camelCase,
+    List.map_cons, List.map_nil] at i1 i2 i3 ⊢
+  rw [i1, i2, i3]
   rfl
 
 
